@@ -415,6 +415,15 @@ def book_tie():
                     "BookGen.v", "BookC02Proofs.v", "BookGen.")
 
 
+def walk_tie():
+    """the walk of a matching round (C01, C03): the statements before the loop of Market._execution and the loop body, iterated, are
+    the model's Match.walk"""
+    import py2coq_walk
+    src = os.path.join(REPO, "pams", "market.py")
+    return _run_tie("translator:pams/market.py(_execution walk)", src, lambda: py2coq_walk.translate(REPO), "WalkGen.v", "WalkC01Proofs.v",
+                    "WalkGen.")
+
+
 def runner_tie():
     """the per-order block of SequentialRunner._handle_orders, both copies (C09, C11)"""
     import py2coq_runner
